@@ -103,12 +103,13 @@ int hcmp(const void *a, const void *b, void *priv)
         if (sa || sb) X.cmp_scratch++;
         ok = (sa || in_arr(a)) && (sb || in_arr(b));
     } else {
-        ok = a == X.probe && in_arr(b);
+        // (probe, element) or (element, probe): which side the probe goes on is not documented
+        ok = (a == X.probe && in_arr(b)) || (b == X.probe && in_arr(a));
     }
     if (!ok) {
         CHECK_NOTHROW(false, "C11.cmp_ptr_bounds",
                       "compare callback received (%p,%p): array %p, %zu elements of %zu bytes%s (byte offsets %td, %td)",
-                      a, b, (const void *)X.base, X.n, X.es, X.mode == 2 ? ", first argument must be the probe" : "",
+                      a, b, (const void *)X.base, X.n, X.es, X.mode == 2 ? ", one argument must be the probe, the other an element" : "",
                       (const char *)a - (const char *)X.base, (const char *)b - (const char *)X.base);
         return 0;   // do not touch memory the library had no business pointing at
     }
@@ -190,6 +191,131 @@ std::string keys_str(const uint8_t *p, size_t n, size_t es)
     return s + "]";
 }
 
+
+// ---------------------------------------------------------------- virtual arrays ("for every ... length")
+// Arrays of up to 2^33 elements cannot be materialised, but search, find and reverse reach the elements only
+// through the caller's compare / swap callbacks: the "array" is an address range that is never dereferenced,
+// the element at index i carries the key i (strictly increasing, so the array is sorted), the probe is a real
+// object holding a target index. Every index computation narrower than size_t shows here.
+struct Virt {
+    uintptr_t base; size_t n, es; size_t target;      // target >= n: absent
+    uint64_t cmp_calls, swap_calls, sum_i, sum_i2; bool bad; char why[160];
+    const void *probe, *tmp;
+} V;
+bool virt_index(const void *p, size_t *i)
+{
+    uintptr_t q = (uintptr_t)p;
+    if (q < V.base || (q - V.base) % V.es != 0 || (q - V.base) / V.es >= V.n) return false;
+    *i = (q - V.base) / V.es;
+    return true;
+}
+int virt_cmp(const void *a, const void *b, void *priv)
+{
+    V.cmp_calls++;
+    if (priv != (void *)&V && !V.bad) { V.bad = true; snprintf(V.why, sizeof V.why, "compare callback received priv %p", priv); }
+    size_t i;
+    bool probe_first = a == V.probe;
+    const void *e = probe_first ? b : a;
+    if ((!probe_first && b != V.probe) || !virt_index(e, &i)) {
+        if (!V.bad) { V.bad = true; snprintf(V.why, sizeof V.why, "compare callback received (%p,%p): byte offsets %td, %td, array of %zu elements of %zu bytes",
+                                              a, b, (intptr_t)((uintptr_t)a - V.base), (intptr_t)((uintptr_t)b - V.base), V.n, V.es); }
+        return 0;
+    }
+    if (V.cmp_calls > 100000 + (V.target < V.n ? V.target : V.n) * 2)        // (a linear find may look at every element up to the target)
+        verif_fail("C11.terminates", "more than %llu comparisons searching %zu virtual elements", (unsigned long long)V.cmp_calls, V.n);
+    int c = (V.target > i) - (V.target < i);       // cmp(probe, element)
+    return probe_first ? c : -c;
+}
+void virt_swap(void *a, void *b, void *t, size_t len)
+{
+    V.swap_calls++;
+    size_t i, j;
+    if (!virt_index(a, &i) || !virt_index(b, &j) || len != V.es || t != V.tmp) {
+        if (!V.bad) { V.bad = true; snprintf(V.why, sizeof V.why, "swap callback received a=%p b=%p t=%p len=%zu (array of %zu elements of %zu bytes)", a, b, t, len, V.n, V.es); }
+        return;
+    }
+    if (i > j) std::swap(i, j);
+    if (i + j != V.n - 1 || i == j) {
+        if (!V.bad) { V.bad = true; snprintf(V.why, sizeof V.why, "swap of elements %zu and %zu of %zu: not a mirrored pair", i, j, V.n); }
+        return;
+    }
+    V.sum_i += i;
+    V.sum_i2 += (uint64_t)i * (uint64_t)i;
+}
+const size_t VCOUNTS[] = {((size_t)1 << 31) + 1, ((size_t)1 << 31) - 1, (size_t)1 << 31, ((size_t)1 << 31) + 2, ((size_t)1 << 32) - 1, (size_t)1 << 32,
+                          ((size_t)1 << 32) + 5, ((size_t)1 << 30) + 1, ((size_t)1 << 30) + 2, (size_t)3 << 30, ((size_t)1 << 33) + 1, 100, 65537,
+                          ((size_t)1 << 16) + 1, ((size_t)1 << 24) + 3, 1};
+const int NVC = sizeof VCOUNTS / sizeof VCOUNTS[0];
+size_t virt_target(size_t n, uint8_t code, uint8_t fine)
+{
+    switch (code % 14) {
+    case 0: return 0;
+    case 1: return n - 1;
+    case 2: return n;                    // absent (beyond the last key)
+    case 3: return n / 2;
+    case 4: return n > 1 ? n - 2 : 0;
+    case 5: return ((size_t)1 << 31) - 1;
+    case 6: return (size_t)1 << 31;
+    case 7: return ((size_t)1 << 31) + 1;
+    case 8: return ((size_t)1 << 32) - 1;
+    case 9: return (size_t)1 << 32;
+    case 10: return ((size_t)1 << 30) + fine;
+    case 11: return n / 2 + fine;
+    case 12: return n / 4 * 3 + fine;
+    default: return (size_t)fine;
+    }
+}
+void run_virtual(const uint8_t h[], size_t es)
+{
+    memset(&V, 0, sizeof V);
+    V.n = VCOUNTS[h[6] % NVC];
+    V.es = es;
+    V.base = (uintptr_t)1 << 40;          // never dereferenced
+    static size_t probe_obj, tmp_obj[600];
+    V.probe = &probe_obj;
+    V.tmp = tmp_obj;
+    const int what = h[5] % 4;           // 0,1 search; 2 find; 3 reverse
+    V.target = virt_target(V.n, h[7], h[8]);
+    const bool present = V.target < V.n;
+    if (what == 3) {
+        // 2^30+ callback calls cost seconds: only when the header says so
+        if (V.n > ((size_t)1 << 26) && !(h[4] & 0x80)) { CNT("noop.virt_reverse_big"); TRACE("virtual reverse of %zu elements: skipped (flag)", V.n); return; }
+        g_cur_op = "raw_array_reverse(virtual)";
+        TRACE("virtual array: %zu elements of %zu bytes; reverse", V.n, V.es);
+        LIB(cstl_raw_array_reverse((void *)V.base, V.n, V.es, virt_swap, tmp_obj));
+        CHECK(!V.bad, "C11.reverse", "reverse of %zu elements: %s", V.n, V.why);
+        uint64_t m = V.n / 2;            // pairs (i, n-1-i), i < n/2, each exactly once
+        unsigned __int128 s1 = (unsigned __int128)m * (m - 1) / 2, s2 = (unsigned __int128)(m - 1) * m * (2 * m - 1) / 6;
+        CHECK(V.swap_calls == m && V.sum_i == (uint64_t)s1 && V.sum_i2 == (uint64_t)s2, "C11.reverse",
+              "reverse of %zu elements made %llu swaps, %llu mirrored pairs are needed, each once", V.n, (unsigned long long)V.swap_calls, (unsigned long long)m);
+        CNT("class.virt.reverse");
+        if (V.n > (size_t)INT32_MAX) { g_nontrivial = true; CNT("class.virt.above_int_max"); }
+        return;
+    }
+    ssize_t r;
+    if (what == 2) {
+        // linear find costs target+1 calls (all n when absent): keep it bounded
+        size_t cost = present ? V.target : V.n;
+        bool allowed = cost <= ((size_t)1 << 22) || ((h[4] & 0x80) && (cost <= ((size_t)1 << 28) || (cost <= ((size_t)1 << 32) + 8 && h[8] < 8)));
+        if (!allowed) { CNT("noop.virt_find_far"); TRACE("virtual find: skipped (would make %zu callback calls)", cost); return; }
+        g_cur_op = "raw_array_find(virtual)";
+        LIB(r = cstl_raw_array_find((const void *)V.base, V.n, V.es, V.probe, virt_cmp, &V));
+    } else {
+        g_cur_op = "raw_array_search(virtual)";
+        LIB(r = cstl_raw_array_search((const void *)V.base, V.n, V.es, V.probe, virt_cmp, &V));
+    }
+    TRACE("virtual array: %zu elements of %zu bytes, key(i)=i; %s for key %zu -> %zd", V.n, V.es, what == 2 ? "find" : "search", V.target, r);
+    CHECK(!V.bad, "C11.cmp_ptr_bounds", "%s in %zu elements: %s", what == 2 ? "find" : "search", V.n, V.why);
+    if (present)
+        CHECK(r == (ssize_t)V.target, what == 2 ? "C11.find" : "C11.search",
+              "%s for the key at index %zu of %zu elements returned %zd", what == 2 ? "find" : "binary search", V.target, V.n, r);
+    else
+        CHECK(r == -1, what == 2 ? "C11.find" : "C11.search", "%s for an absent key in %zu elements returned %zd, expected -1",
+              what == 2 ? "find" : "binary search", V.n, r);
+    CNT(what == 2 ? "class.virt.find" : "class.virt.search");
+    if (V.n > (size_t)INT32_MAX) { g_nontrivial = true; CNT("class.virt.above_int_max"); }
+}
+
 std::vector<uint32_t> g_kidx, g_probes, g_pres;
 std::vector<uint8_t> g_in, g_snap;
 std::vector<int32_t> g_first;   // key value -> first index in the unsorted input (-1: absent)
@@ -230,6 +356,7 @@ void vf_run(const uint8_t *data, size_t len)
     // that arbitrary byte strings (libFuzzer) are mostly small arrays
     size_t ns = !shape ? 0 : h[7] < 32 ? (size_t)((h[6] | (h[7] << 8)) % 8001) : (size_t)(h[6] % 48);
     const uint8_t param = h[8];
+    if (h[9] & 0x80) { run_virtual(h, es); return; }      // arrays too long to exist: see run_virtual
     const unsigned limit = h[9] & 15;         // G1 only: max elements, canonical record order
     const bool strict = g_want_state && limit;
     const size_t nmax = std::min<size_t>((seli == 0 || seli == 1) ? NMAX_DEEP : NMAX, std::max<size_t>(4, ((size_t)1 << 19) / es));   // <= 512 KiB of elements
@@ -531,6 +658,20 @@ void vf_run(const uint8_t *data, size_t len)
 // ---------------------------------------------------------------- G2
 void vf_gen(Rng &r, std::vector<uint8_t> &out)
 {
+    if (r.chance(1, 64)) {
+        // virtual array (lengths around and above 2^31 .. 2^33): header only
+        out.push_back(0);
+        out.push_back(r.chance(1, 2) ? (uint8_t)r.below(8) : r.byte());
+        out.push_back(0);
+        out.push_back(0);
+        out.push_back(r.chance(1, 100) ? 0x80 : 0);   // long-running variants (2^30 swap calls, far linear finds) are rare
+        out.push_back(r.byte());                         // search / find / reverse
+        out.push_back(r.byte());                         // length
+        out.push_back(r.byte());                         // target class
+        out.push_back(r.byte());                         // target fine
+        out.push_back(0x80);
+        return;
+    }
     int seli = (int)r.below(NSEL);
     out.push_back(r.byte());                 // entry point
     out.push_back(r.chance(1, 2) ? (uint8_t)r.below(8) : r.byte());   // element size: half classic sizes, half anything up to 192 / large
